@@ -28,6 +28,12 @@
  *                                   request the peer reads nothing for p1 ms (virtual), then closes (p2=0) or
  *                                   reads on (p2=1)
  *   drop k                          the peer's connection is shut down from outside (both directions)
+ *   halfclose k                     the peer's sending direction is shut down (the server reads EOF, the
+ *                                   peer may go on reading or not)
+ *   suspend R k / resume R k        the library thread with role R (I or O) of the client of peer k is not
+ *                                   scheduled between the two (a legal schedule: the thread just does not run)
+ *   cfg field 14 `sharing`          1 screen->dontDisconnect, 2 neverShared, 4 alwaysShared; peer flag 4: the
+ *                                   peer sends ClientInit shared=0
  *   iterhold h wait k1 k2 ...       application iterator: advance to the (h+1)-th client and rest on it while
  *                                   the peers k1 k2 ... are dropped one after the other (wait ms in between),
  *                                   then walk to the end of the list reading every client handed out
@@ -112,6 +118,7 @@ typedef struct sthread {
   long prio;
   void *(*fn)(void *); void *arg;
   int yielded;
+  int suspended;        /* script op `suspend`: not scheduled until `resume` */
   const char *where;    /* last interposed op (diagnostics) */
 } sthread;
 static sthread thr[MAXT];
@@ -274,6 +281,7 @@ static void on_alarm(int sig) { (void)sig; finish_fail("hang", "real-time-watchd
 
 /* ------------------------------------------------------------------------------------------ */
 static int enabled(sthread *t) {
+  if (t->suspended) return 0;
   switch (t->state) {
   case T_RUN: return 1;
   case T_MUTEX: { sobj *o = (sobj *)t->obj; return o->owner == NULL || (o->recursive && o->owner == t); }
@@ -661,11 +669,16 @@ static int is_notify_pipe(int fd) {
   for (i = nclients - 1; i >= 0; i--) if (clients[i].live && clients[i].pipe_w == fd) return i;
   return -1;
 }
+static int foreign_reported;
 ssize_t write(int fd, const void *b, size_t n) {
   ssize_t rc; int c;
   if (!MANAGED()) { resolve(); return r_write(fd, b, n); }
   sched_point("write");
   if (self->role != 'P' && (c = is_notify_pipe(fd)) >= 0) ev(E_PIPEW, NULL, c, NULL);
+  /* no byte of one client's stream may go to another client: a client thread writes to its own socket only */
+  if ((self->role == 'I' || self->role == 'O') && (c = is_client_sock(fd)) >= 0 && c != self->cid && !foreign_reported++) {
+    dump_trace(); printf("res misuse write-to-foreign-client-socket thread-of-client=%d socket-of-client=%d fd=%d\n", self->cid, c, fd);
+  }
   rc = r_write(fd, b, n);
   if (rc < 0 && errno != EAGAIN && errno != EWOULDBLOCK && errno != EINTR && self->role != 'P') {
     int sv = errno; c = is_client_sock(fd);
@@ -690,6 +703,14 @@ int accept(int fd, struct sockaddr *a, socklen_t *l) {
 int close(int fd) {
   if (!MANAGED()) { resolve(); return r_close(fd); }
   sched_point("close");
+  /* a descriptor must not be closed while another thread of the library still waits on it / is about
+     to write to it: the number can be handed out again at once */
+  if (self->role != 'P' && is_client_sock(fd) >= 0) {
+    int i, j;
+    for (i = 0; i < nthr; i++) if (&thr[i] != self && thr[i].lib && thr[i].state == T_SELECT)
+      for (j = 0; j < thr[i].npfd; j++) if (thr[i].pfd[j].fd == fd) {
+        char tb[32]; tname(i, tb); dump_trace(); printf("res misuse close-of-descriptor-in-use fd=%d waiting=%s\n", fd, tb); j = thr[i].npfd; }
+  }
   return r_close(fd);
 }
 
@@ -701,7 +722,7 @@ static void vsleep_ms(unsigned ms) { usleep(ms ? ms * 1000u : 0); }
 /* peers: minimal RFB 3.8 clients (raw + copyrect + rich cursor + newfbsize)                   */
 enum { K_STAY, K_LEAVE, K_ABRUPT, K_SLOW, K_ABANDON, K_STALL };
 struct peer {
-  int idx, kind, p1, p2, soft, nonewfb;
+  int idx, kind, p1, p2, soft, nonewfb, nonshared;
   int fd, connected, eof, handshook;
   int w, h; uint32_t *fb;
   int updates, bells, cuts, converged, finished, used;
@@ -717,6 +738,7 @@ static char listen_name[64];
 static volatile int final_phase, server_down;
 static int fbw, fbh; static uint32_t *server_fb;
 static int connect_counter, accept_counter;
+static int sharing;
 static int guards;   /* 1 handshake-quiet before bell/cut, 2 wait for stray client threads before cleanup, 4 copy only while output threads idle */
 static peer *pending_accept[MAXCL]; /* connect_seq -> peer */
 
@@ -856,7 +878,7 @@ static void *peer_main(void *arg) {
   if (!p_read(p, b, 4)) goto out;
   stage = 2;
   if (p->kind == K_ABANDON && p->p1 == 2) goto abandon;
-  b[0] = 1; if (!p_write(p, b, 1)) goto out;     /* shared */
+  b[0] = p->nonshared ? 0 : 1; if (!p_write(p, b, 1)) goto out;     /* shared flag */
   if (!p_read(p, b, 24)) goto out;
   p->w = get16(b); p->h = get16(b + 2);
   { uint32_t nl = get32(b + 20); char *tmp; int ok; if (nl > 4096) goto out; tmp = malloc(nl + 1); ok = p_read(p, tmp, nl); free(tmp); if (!ok) goto out; }
@@ -1058,6 +1080,7 @@ int main(void) {
       if (pct_d > 16) pct_d = 16;
       guards = n >= 13 ? atoi(tok[12]) : 0;
       sndbuf = n >= 14 ? atoi(tok[13]) : 0;
+      sharing = n >= 15 ? atoi(tok[14]) : 0;
       srng = seed * 0x9E3779B97F4A7C15ull + 12345;
       for (k = 0; k < pct_d; k++) pct_cp[k] = 1 + srand64() % (n >= 12 ? strtoull(tok[11], NULL, 10) : 3000);
       /* scheduler on: the main thread is the application thread */
@@ -1068,6 +1091,9 @@ int main(void) {
       server_fb = (uint32_t *)scr->frameBuffer;
       scr->deferUpdateTime = a_defer; scr->maxClientWait = a_maxwait;
       scr->newClientHook = new_client_hook;
+      if (sharing & 1) scr->dontDisconnect = TRUE;
+      if (sharing & 2) scr->neverShared = TRUE;
+      if (sharing & 4) scr->alwaysShared = TRUE;
       /* identify the static client-list mutex behaviourally: it is the mutex locked by an iterator
          step on the empty list */
       { rfbClientIteratorPtr it = rfbGetClientIterator(scr); size_t before = nev, i;
@@ -1097,7 +1123,7 @@ int main(void) {
       peer *p; k = atoi(tok[1]); if (k < 0 || k >= MAXPEER) die("peer index");
       p = &peers[k]; memset(p, 0, sizeof *p); p->idx = k; p->used = 1; p->cid = -1; p->fd = -1;
       p->kind = !strcmp(tok[2], "stay") ? K_STAY : !strcmp(tok[2], "leave") ? K_LEAVE : !strcmp(tok[2], "abrupt") ? K_ABRUPT : !strcmp(tok[2], "slow") ? K_SLOW : !strcmp(tok[2], "stall") ? K_STALL : K_ABANDON;
-      p->p1 = atoi(tok[3]); p->p2 = atoi(tok[4]); p->soft = atoi(tok[5]) & 1; p->nonewfb = (atoi(tok[5]) >> 1) & 1;
+      p->p1 = atoi(tok[3]); p->p2 = atoi(tok[4]); p->soft = atoi(tok[5]) & 1; p->nonewfb = (atoi(tok[5]) >> 1) & 1; p->nonshared = (atoi(tok[5]) >> 2) & 1;
       if (p->kind == K_SLOW && p->p2 < 1) p->p2 = 1;
     } else if (!strcmp(tok[0], "connect") && n == 2) {
       k = atoi(tok[1]); if (k < 0 || k >= MAXPEER || !peers[k].used) die("connect: no such peer");
@@ -1143,6 +1169,13 @@ int main(void) {
     } else if (!strcmp(tok[0], "drop") && n == 2) {
       k = atoi(tok[1]); if (k < 0 || k >= MAXPEER || !peers[k].used) die("drop: no such peer");
       if (peers[k].started && peers[k].fd >= 0 && !peers[k].finished) shutdown(peers[k].fd, SHUT_RDWR);
+    } else if (!strcmp(tok[0], "halfclose") && n == 2) {
+      k = atoi(tok[1]); if (k < 0 || k >= MAXPEER || !peers[k].used) die("halfclose: no such peer");
+      if (peers[k].started && peers[k].fd >= 0 && !peers[k].finished) shutdown(peers[k].fd, SHUT_WR);
+    } else if ((!strcmp(tok[0], "suspend") || !strcmp(tok[0], "resume")) && n == 3) {
+      int i, on = tok[0][0] == 's';
+      k = atoi(tok[2]); if (k < 0 || k >= MAXPEER || !peers[k].used) die("suspend: no such peer");
+      for (i = 0; i < nthr; i++) if (thr[i].lib && thr[i].role == tok[1][0] && peers[k].cid >= 0 && thr[i].cid == peers[k].cid) thr[i].suspended = on;
     } else if (!strcmp(tok[0], "iterhold") && n >= 3 && !did_cleanup) {
       rfbClientIteratorPtr it; rfbClientPtr cl = NULL; int hcnt = atoi(tok[1]), wait = atoi(tok[2]), i, cnt = 0;
       ev(E_CALL, NULL, 0, "iter");
